@@ -9,7 +9,7 @@ import (
 	"strconv"
 
 	"verif/fw"
-	_ "verif/props"
+	"verif/props"
 )
 
 func usage() {
@@ -31,6 +31,10 @@ func main() {
 		usage()
 	}
 	switch os.Args[1] {
+	case "debug":
+		if os.Args[2] == "pool" {
+			props.DebugPool()
+		}
 	case "run":
 		if len(os.Args) < 4 {
 			usage()
